@@ -60,6 +60,14 @@ class Runner:
             for i, w in enumerate(parse_why(r.get("W")) or []):
                 if w:
                     pbad[base + i] = w
+        self.preface_bad, self.preface_mbad, self.preface_cases = [], [], []
+        if meta.get("preface_shard"):
+            pres = self.ctx.coq_eval_shards(GROUP, out, [meta["preface_shard"]], idents=("M", "W"))
+            errors += ["preface shard did not evaluate: %s" % lg[-600:] for s, lg in pres["_errors"]]
+            r = pres.get(meta["preface_shard"]) or {}
+            self.preface_cases = load_jsonl(os.path.join(out, "preface.jsonl"))
+            self.preface_mbad = self.ctx.parse_nlist(r.get("M")) or []
+            self.preface_bad = [i for i, w in enumerate(parse_why(r.get("W")) or []) if w]
         return meta, cases, mbad, pbad, errors
 
     def shrink(self, cj, still_fails, budget_s=20, rounds=8):
@@ -191,6 +199,18 @@ def run_property(ctx, pid, cmd, prop_file, level_extra):
         ctx.violation(key, small, True,
                       "%d histories on which the implementation's own trace fails predicate %d (%s); smallest: %s"
                       % (len(lst), p, PRED[pid].get(p), json.dumps(small)[:400]))
+    if runner is not None and runner.preface_bad:
+        pcs = runner.preface_cases
+        i = min(runner.preface_bad, key=lambda k: len(json.dumps(pcs[k])))
+        ctx.violation("preface-not-forwarded/split-across-reads", {"preface_reads": pcs[i]["preface_reads"]}, True,
+                      "%d segmentations of a client's first bytes on which forwardPreface fails although the bytes start with "
+                      "the connection preface (or the reverse); smallest: %s" % (len(runner.preface_bad), json.dumps(pcs[i])[:300]))
+    elif runner is not None and runner.preface_mbad:
+        pcs = runner.preface_cases
+        i = runner.preface_mbad[0]
+        ctx.violation("preface-correspondence", {"preface_reads": pcs[i]["preface_reads"],
+                      "unchecked": "correspondence forward_preface(model)/forwardPreface"}, False,
+                      "model and implementation of forwardPreface differ: %s" % json.dumps(pcs[i])[:300])
     if mbad and not pbad:
         idx = min(mbad, key=lambda i: len(cases[i].get("ops") or []))
         small = strip_case(cases[idx])
@@ -199,7 +219,7 @@ def run_property(ctx, pid, cmd, prop_file, level_extra):
         ctx.violation("model-correspondence", dict(small, unchecked="correspondence model(g09 H2Relay)/implementation"), False,
                       "%d histories where model and implementation differ although the property predicates hold; smallest: %s"
                       % (len(mbad), json.dumps(small)[:400]))
-    if ob_failed and not ctx.violations and not ctx.known_hits:
+    if ob_failed and not ctx.violations:
         ctx.violation("obligation-unchecked", dict(unchecked=ob_failed), False, ob_failed[0][:300])
     elif ob_failed:
         ctx.notes.append({"unchecked_obligations": ob_failed})
@@ -219,7 +239,8 @@ def run_property(ctx, pid, cmd, prop_file, level_extra):
         ] + level_extra),
         "theorems": info["theorems"],
         "unchecked_obligations": ob_failed,
-        "evaluations": int(meta.get("frames", 0)),
+        "evaluations": int(meta.get("frames", 0)) + int(meta.get("preface_cases", 0)),
+        "preface_segmentations": int(meta.get("preface_cases", 0)),
         "histories": int(meta.get("cases", 0)),
         "distinct_nontrivial": nontriv,
         "rule": "histories of raw frames (<=4 streams, both directions, windows 0..70000 favouring small values, SETTINGS up/down, "
